@@ -35,6 +35,7 @@ CmpGroupOk(ev, g) ==
          [] g.k = "ilt"   -> g.v = B(ISignOf(ev) < 0) /\ (fe => g.v = 0)
          [] g.k = "hash"  -> (ev.a = ev.b) => g.v[1] = g.v[2]
          [] g.k = "hash_i" -> fe => g.v[1] = g.v[2]
+         [] g.k = "hashre" -> g.v[1] = g.v[2]       \* an object given the value b hashes like b, whatever it held before
          [] OTHER -> FALSE
 (* all case-insensitive forms must report the same sign *)
 CmpEventOk(ev) == Cardinality({k \in 1..Len(ev.g) : ev.g[k].k = "isign"}) <= 1
